@@ -9,7 +9,7 @@
    is a hypothesis of the convergence theorem; these are explored on real runs by tools/props/C19.py. *)
 From Coq Require Import ZArith List Bool Arith Reals.
 From Coquelicot Require Import Coquelicot.
-From Yad Require Import Base Interp InterpTheorems InterpReal InterpDeriv GlobalInterp GlobalLipschitz GridExample Conv ConvGen ConvError.
+From Yad Require Import Base Interp InterpTheorems InterpReal InterpDeriv GlobalInterp GlobalLipschitz GridExample LinearGrid Conv ConvGen ConvError.
 Import ListNotations.
 Open Scope nat_scope.
 
@@ -162,6 +162,31 @@ Theorem C19_prediction_error_smooth_grid (k : rsl) ns d f M Lam Lam1 h x W Ws v 
                   + Ws * ((Lam1 * (M * h ^ S d / INR (fact (S d))) + M * h ^ d / INR (fact d)) * x + (1 + Lam) * (M * h ^ S d / INR (fact (S d)))))%R.
 Proof. exact (prediction_error_smooth_grid k ns d f M Lam Lam1 h x W Ws v w). Qed.
 Print Assumptions C19_prediction_error_smooth_grid.
+
+(* ---------------- the Lebesgue hypotheses discharged: linear interpolation (d = 1) on ANY increasing grid.  The block of an area is the area,
+   sum_j |l_j| = 1 and sum_j |l_j'| = 2 / (x_(i+1) - x_i) there; the whole-grid bounds then follow from the smoothness of f and the spacings alone *)
+Theorem C19_linear_grid_lebesgue ns i u : sorted ns -> i + 1 < length ns -> (nth i ns 0 <= u <= nth (S i) ns 0)%R ->
+  lebesgue (@block_nodes RFld ns 1 i) u = 1%R /\ lebesgue1 (@block_nodes RFld ns 1 i) u = (2 / (nth (S i) ns 0 - nth i ns 0))%R.
+Proof. exact (linear_grid_lebesgue ns i u). Qed.
+Print Assumptions C19_linear_grid_lebesgue.
+Theorem C19_linear_grid_error_sup ns f M h t : sorted ns -> 1 < length ns ->
+  (forall w, (nth 0 ns 0 <= w <= nth (length ns - 1) ns 0)%R -> forall k, k <= 2 -> ex_derive_n f k w) ->
+  (forall w, (nth 0 ns 0 < w < nth (length ns - 1) ns 0)%R -> (Rabs (Derive_n f 2 w) <= M)%R) ->
+  (forall i, i + 1 < length ns -> (nth (S i) ns 0 - nth i ns 0 <= h)%R) ->
+  (nth 0 ns 0 <= t <= nth (length ns - 1) ns 0)%R ->
+  (Rabs (Iglobal ns 1 f t - f t) <= M * h ^ 2)%R.
+Proof. exact (linear_grid_error_sup ns f M h t). Qed.
+Print Assumptions C19_linear_grid_error_sup.
+Theorem C19_linear_grid_error_lipschitz ns f M h hmin : sorted ns -> 1 < length ns -> (0 < hmin)%R ->
+  (forall w, (nth 0 ns 0 <= w <= nth (length ns - 1) ns 0)%R -> forall k, k <= 2 -> ex_derive_n f k w) ->
+  (forall w, (nth 0 ns 0 < w < nth (length ns - 1) ns 0)%R -> (Rabs (Derive_n f 2 w) <= M)%R) ->
+  (forall i, i + 1 < length ns -> (hmin <= nth (S i) ns 0 - nth i ns 0 <= h)%R) ->
+  forall u v, (nth 0 ns 0 <= u <= nth (length ns - 1) ns 0)%R -> (nth 0 ns 0 <= v <= nth (length ns - 1) ns 0)%R ->
+  (Rabs ((Iglobal ns 1 f u - f u) - (Iglobal ns 1 f v - f v)) <= (2 / hmin * (M * h ^ 2 / INR (fact 2)) + M * h ^ 1 / INR (fact 1)) * Rabs (u - v))%R.
+Proof. exact (linear_grid_error_lipschitz ns f M h hmin). Qed.
+Print Assumptions C19_linear_grid_error_lipschitz.
+Example C19_linear_grid_example t : (1 / 4 <= t <= 1)%R -> (Rabs (Iglobal gex 1 exp t - exp t) <= 3 * (1 / 2) ^ 2)%R.
+Proof. exact (linear_grid_example t). Qed.
 
 (* non-vacuity of the hypotheses of the whole-grid theorems: the grid [1/4; 1/2; 1], linear interpolation, f = exp, h = 1/2, M = 3, Lam = 1, Lam1 = 8 *)
 Example C19_grid_hypotheses_example :
